@@ -41,3 +41,186 @@ Lemma parameterised_kinds_are_the_six :
   list_eqb str_eqb (map (fun a => snd (fst (fst a))) args_raw)
     ["ImageOperands"; "LoopControl"; "MemoryAccess"; "ExecutionMode"; "Decoration"; "TensorAddressingOperands"]%string = true.
 Proof. vm_cast_no_check (eq_refl true). Qed.
+
+(** ======================================================================
+    The reflection functions TRANSLATED from dr/autogen_operand.rs on this run
+    (Gen/OperandReflectData.v), and what they return for every value
+    (Proofs/OperandReflectFacts.v). *)
+From Coq Require Import Permutation.
+From RV Require Import Model.Grammar Model.Decoder Model.Inst Model.Parser Model.Link
+                       Model.OperandReflect Proofs.OperandReflectFacts.
+From RV Require Import Gen.TableData Gen.OperandReflectData Inst.Linked.
+From RV Require Gen.RefOperandReflect.
+
+Lemma opreflect_translated_completely : opreflect_translation_failures = [].
+Proof. reflexivity. Qed.
+
+(** the three functions end in the arm `_ => vec![]` (kinds not listed report nothing) *)
+Lemma outer_fallthrough_arms :
+  req_caps_raw_fallthrough && req_exts_raw_fallthrough && add_ops_raw_fallthrough = true.
+Proof. vm_cast_no_check (eq_refl true). Qed.
+
+Definition capability_enum : option enum_decl := find_enum enums "Capability".
+
+(** names resolved against the declarations of this run (Gen/SpirvData.v) *)
+Definition caps_tbl : list (lkind string) :=
+  Eval vm_compute in
+    match link_kinds enums flags req_caps_raw with
+    | Some l => map_items (canon_name capability_enum) l | None => [] end.
+Definition exts_tbl : list (lkind string) :=
+  Eval vm_compute in match link_kinds enums flags req_exts_raw with Some l => l | None => [] end.
+Definition params_tbl : list (lkind (string * quant)) :=
+  Eval vm_compute in match link_kinds enums flags add_ops_raw with Some l => l | None => [] end.
+
+Lemma reflection_tables_link :
+  option_map (map_items (canon_name capability_enum)) (link_kinds enums flags req_caps_raw) = Some caps_tbl /\
+  link_kinds enums flags req_exts_raw = Some exts_tbl /\
+  link_kinds enums flags add_ops_raw = Some params_tbl.
+Proof. split; [|split]; vm_compute; reflexivity. Qed.
+
+Lemma reported_capabilities_are_declared : items_declared capability_enum caps_tbl = true.
+Proof. vm_cast_no_check (eq_refl true). Qed.
+
+(** non-vacuity: 51 / 43 / 6 kinds are handled, four of the six parameterised kinds are masks *)
+Lemma reflection_table_sizes :
+  (length caps_tbl > 40)%nat /\ (length exts_tbl > 30)%nat /\
+  map (fun r => (lk_kind r, lk_mask r)) params_tbl =
+    [("ImageOperands", true); ("LoopControl", true); ("MemoryAccess", true); ("ExecutionMode", false);
+     ("Decoration", false); ("TensorAddressingOperands", true)]%string.
+Proof. vm_compute. split; [|split]; try reflexivity; repeat constructor. Qed.
+
+(** ---- T1: a mask value's parameters are the union over its set declared bits ---- *)
+Lemma parameter_bits_are_single :
+  forallb (fun r => negb (lk_mask r) || bits_single (lk_rows r)) params_tbl = true.
+Proof. vm_cast_no_check (eq_refl true). Qed.
+
+Theorem mask_parameters_are_union_of_set_bits :
+  forall r, In r params_tbl -> lk_mask r = true ->
+  forall v, Permutation (mask_params (lk_rows r) v)
+                        (flat_map (mask_params (lk_rows r)) (filter (contains v) (declared_bits (lk_rows r)))).
+Proof.
+  intros r Hr Hm v. apply mask_params_union_of_single_bit_values.
+  pose proof parameter_bits_are_single as H. rewrite forallb_forall in H.
+  specialize (H r Hr). rewrite Hm in H. exact H.
+Qed.
+
+(** ---- T2: what additional_operands reports is what the parser consumes ---- *)
+Lemma parameters_agree_per_bit_and_enumerant : all_params_agree kind_names arms_linked params_tbl = true.
+Proof. vm_cast_no_check (eq_refl true). Qed.
+
+Theorem additional_operands_are_what_the_parser_consumes :
+  forall k v,
+    Permutation (map (kind_of_slot kind_names) (params_consumed arms_linked k v))
+                (map item_kind (add_items params_tbl (kind_name kind_names k) v))
+    /\ (is_mask_kind params_tbl (kind_name kind_names k) = false ->
+        map (kind_of_slot kind_names) (params_consumed arms_linked k v)
+        = map item_kind (add_items params_tbl (kind_name kind_names k) v)).
+Proof. exact (all_params_agree_sound _ _ _ parameters_agree_per_bit_and_enumerant). Qed.
+
+(** [params_consumed] is what parse_operand of the parser model reads after the value *)
+Lemma params_consumed_is_parse_operand :
+  forall k s t, nth_error (gd_arms G) (N.to_nat k) = Some (AParam s t) ->
+  forall d, parse_operand G k d =
+    bind (read_slot s d) (fun od =>
+      bind (parse_slots (params_consumed arms_linked k (operand_value (fst od))) (snd od)) (fun pd =>
+        Ok (fst od :: fst pd, snd pd))).
+Proof.
+  intros k s t Hk d. unfold parse_operand, params_consumed. rewrite Hk.
+  change (gd_arms G) with arms_linked in Hk. rewrite Hk.
+  destruct (read_slot s d) as [[o d1]|e|p]; cbn [bind fst snd]; try reflexivity.
+  destruct (parse_slots (table_params t (operand_value o)) d1) as [[ps d2]|e|p]; reflexivity.
+Qed.
+
+(** F20: the reported QUANTIFIER is `One` for every parameter of every enumerant and bit except
+    Decoration::BankBitsINTEL (5835), which reports a ZeroOrMore literal (as the Khronos grammar
+    lists it) where the parser reads exactly one word; the theorem above compares kinds *)
+Definition non_one_params : list (string * N) :=
+  flat_map (fun r => flat_map (fun row => if forallb (fun it => quant_eqb (snd it) One) (snd row) then []
+                                          else map (fun x => (lk_kind r, x)) (fst row)) (lk_rows r)) params_tbl.
+
+Example variadic_parameter_BankBitsINTEL :
+  non_one_params = [("Decoration"%string, 5835)] /\
+  add_items params_tbl "Decoration" 5835 = [("LiteralInteger"%string, ZeroOrMore)] /\
+  length (params_consumed arms_linked (kidx "Decoration") 5835) = 1%nat.
+Proof. vm_compute. split; [|split]; reflexivity. Qed.
+
+(** T-dump: the translated functions return what the compiled ones return on every enumerant
+    and every declared constant of every mask (kinds, in order) *)
+Definition dump_row_ok (ty : string) (is_mask : bool) (row : string * list string) : bool :=
+  match value_of enums flags ty is_mask (fst row) with
+  | Some v => list_eqb str_eqb (map fst (add_items params_tbl ty v)) (snd row)
+  | None => false
+  end.
+
+Lemma additional_operands_dump_agrees :
+  forallb (fun t => forallb (dump_row_ok (fst t) false) (snd t)) reflect_enum_params
+  && forallb (fun t => forallb (dump_row_ok (fst t) true) (snd t)) reflect_mask_params = true.
+Proof. vm_cast_no_check (eq_refl true). Qed.
+
+(** ---- T3: required capabilities / extensions against the reference ---- *)
+Definition pick_caps (r : string * list string * list string) : list string := snd (fst r).
+Definition pick_exts (r : string * list string * list string) : list string := snd r.
+
+Definition ref_caps_masks : list (string * list (N * list string)) :=
+  Eval vm_compute in match link_ref enums flags true pick_caps RefOperandReflect.ref_masks with Some l => l | None => [] end.
+Definition ref_caps_enums : list (string * list (N * list string)) :=
+  Eval vm_compute in match link_ref enums flags false pick_caps RefOperandReflect.ref_enums with Some l => l | None => [] end.
+Definition ref_exts_masks : list (string * list (N * list string)) :=
+  Eval vm_compute in match link_ref enums flags true pick_exts RefOperandReflect.ref_masks with Some l => l | None => [] end.
+Definition ref_exts_enums : list (string * list (N * list string)) :=
+  Eval vm_compute in match link_ref enums flags false pick_exts RefOperandReflect.ref_enums with Some l => l | None => [] end.
+
+Lemma reference_tables_link :
+  link_ref enums flags true pick_caps RefOperandReflect.ref_masks = Some ref_caps_masks /\
+  link_ref enums flags false pick_caps RefOperandReflect.ref_enums = Some ref_caps_enums /\
+  link_ref enums flags true pick_exts RefOperandReflect.ref_masks = Some ref_exts_masks /\
+  link_ref enums flags false pick_exts RefOperandReflect.ref_enums = Some ref_exts_enums.
+Proof. split; [|split; [|split]]; vm_compute; reflexivity. Qed.
+
+(** the reference covers every mask and every value enum that is an operand kind *)
+Lemma reference_covers_all_declared_kinds :
+  forallb (fun F => mem_str (f_name F) (map fst RefOperandReflect.ref_masks)) flags
+  && forallb (fun k => match find_enum enums k with
+                       | Some _ => mem_str k (map fst RefOperandReflect.ref_enums) | None => true end) kind_names = true.
+Proof. vm_cast_no_check (eq_refl true). Qed.
+
+Lemma capabilities_match_reference_per_group_and_arm : all_req_agree caps_tbl ref_caps_masks ref_caps_enums = true.
+Proof. vm_cast_no_check (eq_refl true). Qed.
+
+Lemma extensions_match_reference_per_group_and_arm : all_req_agree exts_tbl ref_exts_masks ref_exts_enums = true.
+Proof. vm_cast_no_check (eq_refl true). Qed.
+
+Theorem required_capabilities_are_the_reference :
+  forall k v, req_spec (ref_kind_of ref_caps_masks ref_caps_enums k) v (req_items caps_tbl k v).
+Proof. exact (all_req_agree_sound _ _ _ capabilities_match_reference_per_group_and_arm). Qed.
+
+Theorem required_extensions_are_the_reference :
+  forall k v, req_spec (ref_kind_of ref_exts_masks ref_exts_enums k) v (req_items exts_tbl k v).
+Proof. exact (all_req_agree_sound _ _ _ extensions_match_reference_per_group_and_arm). Qed.
+
+(** the constants of value 0 the source lists inside `intersects` groups can never fire:
+    RayFlags::NONE_KHR is listed with RayQueryKHR / RayTracingKHR; the value 0 reports nothing
+    (and the reference row of NONE_KHR is empty) *)
+Definition zero_constants_in_groups : list (string * list string) :=
+  flat_map (fun r => if lk_mask r then
+              flat_map (fun row => if memN 0 (fst row) then [(lk_kind r, snd row)] else []) (lk_rows r) else []) caps_tbl.
+
+Example zero_constant_listed_with_requirements :
+  zero_constants_in_groups = [("RayFlags", ["RayQueryKHR"; "RayTracingKHR"])]%string /\
+  req_items caps_tbl "RayFlags" 0 = [] /\
+  ref_lookup (match assoc "RayFlags"%string ref_caps_masks with Some r => r | None => [] end) 0 = [].
+Proof. vm_compute. split; [|split]; reflexivity. Qed.
+
+(** ---- T4: the id kinds ---- *)
+Lemma id_variants_are_the_three :
+  omap (link_mk kind_names) id_ref_any_variants = Some [MkIdRef; MkIdScope; MkIdMemSem] /\
+  omap (link_mk kind_names) id_ref_any_mut_variants = Some [MkIdRef; MkIdScope; MkIdMemSem].
+Proof. split; vm_compute; reflexivity. Qed.
+
+Theorem id_reported_exactly_for_the_three_id_kinds :
+  (forall m w, id_of (make_operand m w) = if existsb (fun m' => match m, m' with
+                                                              | MkIdRef, MkIdRef | MkIdScope, MkIdScope | MkIdMemSem, MkIdMemSem => true
+                                                              | _, _ => false end) [MkIdRef; MkIdScope; MkIdMemSem]
+                                          then Some w else None) /\
+  (forall o v, id_of o = Some v <-> (o = OIdRef v \/ o = OIdScope v \/ o = OIdMemSem v)).
+Proof. split; [intros m w; destruct m; reflexivity|exact id_of_iff]. Qed.
